@@ -167,6 +167,11 @@ def classify(ctx, scripts, log):
             kinds.add("single_step")
     if any(v >= 3 for v in times.values()):
         kinds.add("same_instant_coincidence>=3")
+    # a run(until=...) that was ended by an exception, followed by another run that returned normally
+    plan = [o["k"] for o in scripts[0]] if scripts else []
+    xs = [i for i, e in enumerate(log) if e["k"] == "X" and e["v"]["k"] not in ("ValueError", "EmptySchedule")]
+    if xs and ("rununtil" in plan or "runev" in plan) and any(e["k"] == "RET" for e in log[xs[0] + 1:]):
+        kinds.add("run_resumed_after_aborted_run")
     ops = [o["k"] for s in scripts for o in s]
     if ops.count("rununtil") + ops.count("runev") + ops.count("step") >= 2:
         kinds.add("split_run")
